@@ -408,6 +408,18 @@ theorem spec_of_facts (k : FileKind) (m : Mutation) (listed : List Bool) (o : Ob
     · exact Or.inr (h4 hm)
     · left; simpa using hm
 
+/-- the classification used by the correspondence run is consistent: exactly the classes with a
+    `check` prediction "errors" are the `mustReport` ones, and no predicted restore outcome is a
+    wrong restore -/
+theorem mustReport_iff_expect (k : FileKind) (m : Mutation) :
+    mustReport k m = true ↔ expectCheck k m = some true := by
+  cases k <;> cases m <;> decide
+
+theorem admits_never_wrong (k : FileKind) (m : Mutation) (self : Bool) (x : Option Bool)
+    (h : (expectRestore k m self).admits x = true) : x ≠ some false := by
+  intro hx; subst hx
+  cases k <;> cases m <;> cases self <;> simp [expectRestore, RExp.admits] at h
+
 /-! ### Non-vacuity -/
 
 def toyC : Codec where
